@@ -230,6 +230,41 @@ func oneRun(r *rep.Report, spec runSpec) {
 		}
 		addRecD("j0", ms(2000+rng.Intn(300)))
 		quiet(ms(6200))
+	case "command-burst":
+		// many control commands in a row (more than the control channel buffers) while a job is
+		// pending: the calls return, and once the pauses are over the job fires
+		{
+			var fired int64
+			c.Add(ctx, "cb", "+300ms", func(t time.Time) error { atomic.AddInt64(&fired, 1); return nil })
+			const n = 14
+			returned := make(chan bool, 1)
+			go func() {
+				for i := 0; i < n; i++ {
+					c.Pause(ctx)
+				}
+				returned <- true
+			}()
+			ok := false
+			select {
+			case <-returned:
+				ok = true
+			case <-time.After(10 * time.Second):
+			}
+			// every pause lasts 150 ms; they are served one after the other
+			time.Sleep(time.Duration(n)*150*time.Millisecond + 2*time.Second)
+			r.Count("command_bursts", 1)
+			wit := rep.J{"run": spec, "commands": n, "all_calls_returned": ok, "fires": atomic.LoadInt64(&fired)}
+			if !canaryOK() {
+				r.Inconclusive("canary late")
+			} else if !ok {
+				r.Violate("", "a burst of Pause calls did not return within 10 s (the caller blocks on the full control channel while holding the cron's lock)", wit)
+			} else if atomic.LoadInt64(&fired) != 1 {
+				r.Violate("", "a pending one-shot job did not fire after a burst of pauses was over", wit)
+			}
+			if !ok {
+				return // the cron is wedged: Kill would block, too
+			}
+		}
 	case "no-occurrence-schedule":
 		// a cron expression without any occurrence (30 February) and one whose next occurrence is
 		// years away: accepted or refused, the job must not fire now
@@ -516,7 +551,7 @@ func main() {
 	e := rep.GetEnv()
 	r := rep.New(e)
 	r.Note("hooks_compiled_in", hook.Enabled())
-	patterns := []string{"rem-head-then-quiet", "replace-head-later", "add-earlier-than-head", "add-during-suspend", "pause", "rem-recurring-during-run", "replace-recurring-during-run", "replace-recurring-both-running", "rem-readd-recurring-both-running", "recurring-callback-error", "no-occurrence-schedule", "concurrent-adds-one-id", "recurring", "random", "random", "random"}
+	patterns := []string{"rem-head-then-quiet", "replace-head-later", "add-earlier-than-head", "add-during-suspend", "pause", "rem-recurring-during-run", "replace-recurring-during-run", "replace-recurring-both-running", "rem-readd-recurring-both-running", "recurring-callback-error", "command-burst", "no-occurrence-schedule", "concurrent-adds-one-id", "recurring", "random", "random", "random"}
 	rounds := e.Pick(1, 4)
 	var wg sync.WaitGroup
 	for round := 0; round < rounds; round++ {
